@@ -47,7 +47,7 @@ class ArgsFormat(object):
             if option.short_name:
                 self._options_by_short_name[option.short_name] = option
 
-        for command_option in builder.get_command_options():
+        for command_option in builder.get_command_options(False):
             self._command_options[command_option.long_name] = command_option
 
             if command_option.short_name:
